@@ -4,7 +4,7 @@
    [run (step cfg) init ls = Some s] for an arbitrary label sequence ls (every schedule, every
    timer firing, every broker reaction). *)
 From Coq Require Import List NArith Bool Arith.
-From KV Require Import Lib.LTS Model.Writer Proofs.WriterStmts Proofs.WriterC08.
+From KV Require Import Lib.LTS Model.Writer Proofs.WriterStmts Proofs.WriterC08 Proofs.WriterHolds Proofs.WriterC01a Proofs.WriterHolds2.
 Import ListNotations.
 
 (* Every produce request the broker ever sees carries at most BatchSize messages, at most
@@ -87,6 +87,29 @@ Theorem C08_queued_batch_served :
     end.
 Proof. exact C08_queued_batch_served_proof. Qed.
 Print Assumptions C08_queued_batch_served.
+
+(* The extracted boolean predicate that the correspondence run evaluates on the journal of
+   every recorded real history is true on every run of the model. *)
+Theorem C08_limits_holds_on_runs :
+  forall cfg ls s, cfg_ok cfg -> run (step cfg) init ls = Some s ->
+    C08_limits_holds cfg (s_journal s) = true.
+Proof. exact C08_limits_holds_runs. Qed.
+Print Assumptions C08_limits_holds_on_runs.
+
+(* ... and nothing of a rejected call (too large, topic conflict, metadata failure, closed)
+   is ever sent, in any later state. *)
+Theorem C08_rejected_never_sent :
+  forall cfg ls s, run (step cfg) init ls = Some s ->
+  forall c cl, nth_error (s_calls s) c = Some cl -> rejected cl = true ->
+  forall m a, In m (c_msgs cl) -> In a (s_journal s) -> ~ In m (a_msgs a).
+Proof. exact C08_rejected_never_sent_proof. Qed.
+Print Assumptions C08_rejected_never_sent.
+
+Theorem C08_rejected_sends_nothing_holds_on_runs :
+  forall cfg ls s, run (step cfg) init ls = Some s ->
+    rejected_sends_nothing_holds (s_calls s) (s_journal s) = true.
+Proof. exact rejected_sends_nothing_holds_runs. Qed.
+Print Assumptions C08_rejected_sends_nothing_holds_on_runs.
 
 (* ---- non-vacuity: BatchSize 2, BatchBytes 100; a call of three 40-byte messages: the first
    two fill a batch exactly by count, the third is flushed by its timer; a 50+50 pair hits
